@@ -108,7 +108,8 @@ fn check_c08(st: &mut Stats, line: &Value, deep: bool) -> Vec<String> {
     st.evaluations += 1;
     match from_bytes(&bytes) {
         Ok(ont) => {
-            for x in compare(&ont, &exp, &[Focus::Struct, Focus::Ann, Focus::Ic, Focus::Meta]) {
+            // information content is derived, not described by the file: it is C03's business
+            for x in compare(&ont, &exp, &[Focus::Struct, Focus::Ann, Focus::Meta]) {
                 d.push(format!("v{v} file ({} bytes): {x}", bytes.len()));
             }
         }
@@ -322,7 +323,9 @@ fn check_c07(st: &mut Stats, line: &Value, dump: &mut Option<(std::fs::File, std
                 for x in compare(o2, &seen, &[Focus::Struct, Focus::Ann, Focus::Ic, Focus::Meta]) {
                     d.push(format!("source {name}: reloaded ontology differs from the serialised one: {x}"));
                 }
-                for x in compare(o2, &e, &[Focus::Struct, Focus::Ann, Focus::Ic, Focus::Meta]) {
+                // against the specification: what "identical up to the 255-byte limit" means (names cut on a
+                // character boundary, flags, release date); structure, links and IC are compared with the source only
+                for x in compare(o2, &e, &[Focus::Meta]) {
                     d.push(format!("source {name}: after as_bytes -> from_bytes: {x}"));
                 }
                 // Ontology::compare must see no difference either
